@@ -336,7 +336,8 @@ let cmd_engine (args : sx list) : sx =
       let wf = if want 'w' then [A "wf"; bool_sx (wf_check matrix_dom a (compute_rank a) ids && arity_ok matrix_dom a)] else [] in
       let snd_ = if want 's' then [A "sound"; bool_sx (lab_ok matrix_dom m_goodb atoms_self a (compute_lab matrix_dom atoms_self a) cs)] else [] in
       let cpl = if want 'c' then [A "complete"; bool_sx (cert_complete (char_entails mkey_eqb) (char_refutes mkey_eqb) a cs pres)] else [] in
-      L (wf @ snd_ @ cpl)
+      let tgt = if want 't' then [A "tight"; bool_sx (m_keys_tight a cs && m_keys_nn a)] else [] in
+      L (wf @ snd_ @ cpl @ tgt)
   | [A "occ"; A "str"; p; h] ->
       let pat = sx_spat p and host = sx_shost h in
       if pat = [] then L [A "u"]
